@@ -757,7 +757,7 @@ nms_adpcm_read_s (SF_PRIVATE *psf, short *ptr, sf_count_t len)
 	while (len > 0)
 	{	readcount = (len > 0x10000000) ? 0x10000000 : (int) len ;
 
-		count = nms_adpcm_read_block (psf, pnms, ptr, readcount) ;
+		count = nms_adpcm_read_block (psf, pnms, ptr + total, readcount) ;
 
 		total += count ;
 		len -= count ;
@@ -918,7 +918,7 @@ nms_adpcm_write_s (SF_PRIVATE *psf, const short *ptr, sf_count_t len)
 	while (len > 0)
 	{	writecount = (len > 0x10000000) ? 0x10000000 : (int) len ;
 
-		count = nms_adpcm_write_block (psf, pnms, ptr, writecount) ;
+		count = nms_adpcm_write_block (psf, pnms, ptr + total, writecount) ;
 
 		total += count ;
 		len -= count ;
